@@ -36,6 +36,15 @@ def spec(tier):
                         obs.append(CH(name=nm, harness="rsim.runs_to_end",
                                       sym=dict(cpus=I(1, 40 if th else 20), ram=I(1, 80 if th else 40), ma=I(1, 8), mb=I(1, 8), ta=I(0, 3), da=I(1, 2)),
                                       fixed=dict(cfg=cfg, db=1), timeout=1500))
+    # deeper DAG shapes: a join whose parents differ in depth by two (0->1->2->3 plus 0->3), two independent chains, two roots with
+    # a skip-level edge - packed into one container in the order the scheduler takes from the pipeline
+    deep = [pipe("deepskip", prio=3, at=0, durs=[1, "da", 1, 1], mems=[1, "ma", 1, 1]), pipe("twochains", prio=2, at="ta", durs=[2, 1, 1, 1]),
+            pipe("tworootskip", prio=1, at=1, durs=[1, 1, "db", 1], mems=[1, 1, "mb", 1])]
+    for algo, pools, oc in (("naive", 1, False), ("priority", 1, False), ("priority-pool", 2, False), ("overbook", 1, True), ("starter", 1, False)):
+        for multi in ((True, False) if algo in ("priority", "naive") and th else (True,)):
+            cfg = dict(algo=algo, pools=pools, oc=oc, multi=multi, duration=14, pipes=deep)
+            obs.append(CH(name=f"runs_{algo}_P{pools}_{'multi' if multi else 'single'}_deep_dags", harness="rsim.runs_to_end",
+                          sym=dict(cpus=I(1, 12), ma=I(1, 8), mb=I(1, 8), ta=I(0, 3)), fixed=dict(cfg=cfg, ram=25, da=2, db=1), timeout=1500))
     # overbook: abandonment while sibling operators are queued and CPUs are scarce
     cfg2 = dict(algo="overbook", pools=2, oc=True, multi=False, duration=12,
                 pipes=[pipe("single", prio=3, at=0, durs=[1], mems=["mb"]), pipe("fork4", prio=2, at="ta", durs=["da", 2, 2, 2], mems=[1, "ma", 1, 1])])
